@@ -4,6 +4,7 @@ import (
 	"fmt"
 	"go/token"
 	"go/types"
+	"sort"
 	"strings"
 
 	"golang.org/x/tools/go/ssa"
@@ -389,4 +390,42 @@ func c15RestoreLatest(c *Ctx) {
 		}
 	}
 	c.Check(rule, fnName(fn)+"|latest-backup", ok && n > 0, fn.Pos(), fmt.Sprintf("%d restore calls; %s", n, why))
+	// … and RestoreFromLastBackup leaves "latest" to RocksDB (backup ids are issued in order; timestamps have a
+	// granularity of one second — round-5 seed c15k picked the newest timestamp and restored the older of two backups
+	// taken in the same second)
+	if lb := c.FuncOpt("cgo-rocksdb", "(*BackupEngine).RestoreFromLastBackup"); lb != nil {
+		c.Examined(lb)
+		var cnames []string
+		seen := map[*ssa.Function]bool{}
+		var walk func(f *ssa.Function, depth int)
+		walk = func(f *ssa.Function, depth int) {
+			if seen[f] || depth > 2 {
+				return
+			}
+			seen[f] = true
+			for _, ci := range callInstrs(f) {
+				sf := ci.Common().StaticCallee()
+				if sf == nil {
+					continue
+				}
+				if strings.HasPrefix(sf.Name(), "_Cfunc_rocksdb_backup_engine_") {
+					cnames = append(cnames, strings.TrimPrefix(sf.Name(), "_Cfunc_rocksdb_backup_engine_"))
+				} else if sf.Pkg == f.Pkg && sf.Blocks != nil {
+					walk(sf, depth+1)
+				}
+			}
+		}
+		walk(lb, 0)
+		sort.Strings(cnames)
+		latest, byID := false, false
+		for _, n := range cnames {
+			if n == "restore_db_from_latest_backup" {
+				latest = true
+			}
+			if n == "restore_db_from_backup" {
+				byID = true
+			}
+		}
+		c.Check(rule, fnName(lb)+"|asks-rocksdb-for-the-latest", latest && !byID, lb.Pos(), fmt.Sprintf("backup-engine C entry points reached: %v", cnames))
+	}
 }
